@@ -107,7 +107,21 @@ class MR(nn.Module):
         return self.fc((z1 + z2).flatten(1))
 
 
-FAMILIES = {'MD': MD, 'MA': MA, 'ML': ML, 'M1D': M1D, 'MR': MR}
+class M1A(nn.Module):
+    """1D residual: two parallel Conv1d (with bias, different weight ranges) summed -> ReLU -> flatten -> Linear; the two convolutions share
+    one weight quantizer (width-sharing group)"""
+
+    def __init__(self, C=2, cin=1, T=2):
+        super().__init__()
+        self.c0 = nn.Conv1d(cin, C, 1)
+        self.c1 = nn.Conv1d(cin, C, 1)
+        self.fc = nn.Linear(C * T, 2)
+
+    def forward(self, x):
+        return self.fc(torch.relu(self.c0(x) + self.c1(x)).flatten(1))
+
+
+FAMILIES = {'MD': MD, 'MA': MA, 'ML': ML, 'M1D': M1D, 'MR': MR, 'M1A': M1A}
 
 
 def prog_id(spec):
@@ -119,6 +133,9 @@ def build(spec, seed=0):
     kw = {k: v for k, v in spec.items() if k not in ('fam', 'w', 'a', 'wtype', 'id', 'tier', 'seed', 'selftest', 'mps', 'a_in', 'clip', 'ties')}
     m = FAMILIES[spec['fam']](**kw)
     dyadic_init(m, seed, den=8, lim=8)
+    if spec['fam'] == 'M1A':
+        with torch.no_grad():
+            m.c1.weight.mul_(4)          # clearly different weight ranges in the two layers that share the quantizer
     # eps must be positive for MPS' own BatchNorm folding; keep var + eps a power of 4
     for mod in m.modules():
         if isinstance(mod, (nn.BatchNorm1d, nn.BatchNorm2d)):
